@@ -342,3 +342,13 @@ func finalStore(fn *ssa.Function, st *ssa.Store, field *types.Var, assume map[ss
 	}
 	return false
 }
+
+// isKeyID: v is the textual identity of a public key: vconfig.PubkeyID(k) or the common.PubKeyToHex(k) it stands for.
+func isKeyID(v ssa.Value) bool {
+	k, ok := an.Origin(v).(*ssa.Call)
+	if !ok || k.Call.StaticCallee() == nil {
+		return false
+	}
+	n := k.Call.StaticCallee().Name()
+	return n == "PubkeyID" || n == "PubKeyToHex"
+}
